@@ -376,6 +376,6 @@ def run(run, model):
     from rules import c08
     run.try_rule(c08.r08_1, model)
     from rules import c06
-    for fn_ in (c07.r07_1, c07.r07_3, c07.r07_5, c06.r06_4):
+    for fn_ in (c06.r06_4,):
         run.try_rule(fn_, model)
     run.assume("constraint generation in check.rs is taken as given; only the gates, the unifier and the pattern/expected-type plumbing are decided")
